@@ -48,13 +48,17 @@ vars == <<lens, rowspan, lines, nxt, rows, phase>>
 Max(a, b) == IF a >= b THEN a ELSE b
 Min(a, b) == IF a <= b THEN a ELSE b
 
-RECURSIVE SumTo(_, _)
-SumTo(f, n) == IF n = 0 THEN 0 ELSE f[n] + SumTo(f, n - 1)
-SumSeq(s) == SumTo(s, Len(s))
+\* sums and concatenations split their range in halves: the recursion is only log(n) deep, so that TLC can
+\* evaluate them on the few hundred words of a long comment without exhausting its stack
+RECURSIVE SumRange(_, _, _)
+SumRange(f, a, b) == IF a > b THEN 0 ELSE IF a = b THEN f[a]
+                     ELSE LET m == (a + b) \div 2 IN SumRange(f, a, m) + SumRange(f, m + 1, b)
+SumSeq(s) == SumRange(s, 1, Len(s))
 
-RECURSIVE FlattenTo(_, _)
-FlattenTo(ls, n) == IF n = 0 THEN <<>> ELSE FlattenTo(ls, n - 1) \o ls[n]
-Flatten(ls) == FlattenTo(ls, Len(ls))          \* concatenation of a sequence of sequences
+RECURSIVE FlattenRange(_, _, _)
+FlattenRange(ls, a, b) == IF a > b THEN <<>> ELSE IF a = b THEN ls[a]
+                          ELSE LET m == (a + b) \div 2 IN FlattenRange(ls, a, m) \o FlattenRange(ls, m + 1, b)
+Flatten(ls) == FlattenRange(ls, 1, Len(ls))    \* concatenation of a sequence of sequences
 
 Iota(n) == [i \in 1..n |-> i]
 
@@ -159,8 +163,14 @@ Rendered(ws) == IF Braced(ws) THEN DropLastMarkup(DropFirstMarkup(ws)) ELSE ws
 RowKind(l) == l[1]
 RowWords(l) == l[2]
 RowOp(l) == l[7]
-RECURSIVE InstrEnd(_, _)
-InstrEnd(o, p) == IF p + 1 <= Len(o) /\ RowKind(o[p + 1]) = "i" /\ RowOp(o[p + 1]) = 0 THEN InstrEnd(o, p + 1) ELSE p
+\* first row in a..b that is not a continuation row (b+1 if there is none); halves the range (see SumRange)
+IsCont(l) == RowKind(l) = "i" /\ RowOp(l) = 0
+RECURSIVE FirstNotCont(_, _, _)
+FirstNotCont(o, a, b) == IF a > b THEN a ELSE IF a = b THEN (IF IsCont(o[a]) THEN a + 1 ELSE a)
+                         ELSE LET m == (a + b) \div 2
+                                  f == FirstNotCont(o, a, m)
+                              IN IF f <= m THEN f ELSE FirstNotCont(o, m + 1, b)
+InstrEnd(o, p) == FirstNotCont(o, p + 1, Len(o)) - 1
 WordsIn(o, a, b) == Flatten([j \in 1..(b - a + 1) |-> RowWords(o[a + j - 1])])
 RECURSIVE BraceExt(_, _, _)
 BraceExt(o, e, nest) ==
